@@ -52,16 +52,11 @@ def _ok(keys, eid):
     return all((not any(c.isspace() for c in k)) and k.startswith("%s/%s/" % (S3_FILE_PATH, eid)) for k in keys)
 
 
-def post_gaussian_keys(eid, office, gut, estimand, ret):
-    return len(ret) == 2 and _ok(ret, eid)
+def post_gaussian_conf_key(eid, office, gut, estimand, ret):
+    return len(ret) == 1 and _ok(ret, eid)
 
 
-def gaussian_keys(eid: str, office: str, gut: str, estimand: str) -> List[str]:
-    """
-    pre: 1 <= len(eid) <= 2 and 1 <= len(office) <= 1 and 1 <= len(gut) <= 2 and 1 <= len(estimand) <= 1
-    pre: not any(c.isspace() for c in eid + office + gut + estimand)
-    post: post_gaussian_keys(eid, office, gut, estimand, __return__)
-    """
+def _gaussian(eid, office, gut, estimand, which):
     Rec.keys = []
     orig = s3.S3CsvUtil
     s3.S3CsvUtil = Rec
@@ -72,13 +67,36 @@ def gaussian_keys(eid: str, office: str, gut: str, estimand: str) -> List[str]:
 
         oc, M.convert_df_to_csv = M.convert_df_to_csv, _csv
         try:
-            g._write_conformalization_data(df, eid, office, gut, estimand, ["postal_code"], 0.9)
-            g._write_gaussian_bounds(df, eid, office, gut, estimand, ["postal_code"], 0.9)
+            if which == "conf":
+                g._write_conformalization_data(df, eid, office, gut, estimand, ["postal_code"], 0.9)
+            else:
+                g._write_gaussian_bounds(df, eid, office, gut, estimand, ["postal_code"], 0.9)
         finally:
             M.convert_df_to_csv = oc
     finally:
         s3.S3CsvUtil = orig
     return list(Rec.keys)
+
+
+def gaussian_conf_key(eid: str, office: str, gut: str, estimand: str) -> List[str]:
+    """
+    pre: 1 <= len(eid) <= 2 and 1 <= len(office) <= 1 and 1 <= len(gut) <= 2 and 1 <= len(estimand) <= 1
+    pre: not any(c.isspace() for c in eid + office + gut + estimand)
+    post: post_gaussian_conf_key(eid, office, gut, estimand, __return__)
+    """
+    return _gaussian(eid, office, gut, estimand, "conf")
+
+
+post_gaussian_bounds_key = post_gaussian_conf_key
+
+
+def gaussian_bounds_key(eid: str, office: str, gut: str, estimand: str) -> List[str]:
+    """
+    pre: 1 <= len(eid) <= 2 and 1 <= len(office) <= 1 and 1 <= len(gut) <= 2 and 1 <= len(estimand) <= 1
+    pre: not any(c.isspace() for c in eid + office + gut + estimand)
+    post: post_gaussian_bounds_key(eid, office, gut, estimand, __return__)
+    """
+    return _gaussian(eid, office, gut, estimand, "bounds")
 
 
 def post_combined_keys(eid, office, gut, ret):
